@@ -310,6 +310,31 @@ def main():
                        f'{name}: recorded min/max differ from the moving average of the '
                        'true per-sample min/max', 'input': {'recipe': desc, 'signature': key}})
           break
+      # ---- C09 oracle: statistics only for operands / results of ops the recipe selects ----
+      import oracle_static as _os
+      recipe_now = json.loads(json.dumps(qt.get_quantization_recipe()))
+      # (the first call initialises entries for the selected ops of EVERY subgraph)
+      allowed = set()
+      for gsel in m.subgraphs:
+        for o in gsel.operators:
+          kn = tfu.TFL_OP_CODE_TO_NAME.get(m.operatorCodes[o.opcodeIndex].builtinCode)
+          if kn is None:
+            continue
+          scope = ''.join(og.tname(gsel.tensors[x]) + ';' for x in o.outputs if x != -1)
+          alg, _c = _os.spec_resolve(recipe_now, kn.value, scope)
+          if alg != 'no_quantize':
+            allowed.update(og.tname(gsel.tensors[int(x)]) for x in list(o.inputs) + list(o.outputs) if int(x) != -1)
+        isc = ''.join(og.tname(gsel.tensors[x]) + ';' for x in gsel.inputs)
+        if _os.spec_resolve(recipe_now, 'INPUT', isc)[0] != 'no_quantize':
+          allowed.update(og.tname(gsel.tensors[int(x)]) for x in gsel.inputs)
+        if _os.spec_resolve(recipe_now, 'OUTPUT', '')[0] != 'no_quantize':
+          allowed.update(og.tname(gsel.tensors[int(x)]) for x in gsel.outputs)
+      extra = [nm for nm in res if (prev is None or nm not in prev) and nm not in allowed]
+      if extra:
+        viol.append({'key': 'C09:statistic-for-unselected-tensor', 'what':
+                     f'{extra[:3]}: recorded although no op the recipe selects reads or writes it',
+                     'input': {'recipe': desc, 'signature': key,
+                               'model_hex': mb.hex() if len(mb) < 30000 else None}})
       # ---- C09 oracle: constants = their true per-tensor or per-channel min/max ----
       QDIM = {'FULLY_CONNECTED': 0, 'CONV_2D': 0, 'DEPTHWISE_CONV_2D': 3, 'CONV_2D_TRANSPOSE': 0,
               'EMBEDDING_LOOKUP': 0}
@@ -338,7 +363,9 @@ def main():
                 qd = QDIM[kname]
               break
           if qd is None:
-            okc = True      # per-channel statistics of an operand this oracle has no rule for
+            # a constant whose reader is not a weight operator (ADD / MUL / ... operand):
+            # its statistics are per TENSOR
+            okc = False
           else:
             axes = tuple(a for a in range(w.ndim) if a != qd)
             okc = (got_min.size == w.shape[qd] and
